@@ -5,6 +5,7 @@ from rules.common import (opmap, PredTrue, PredFalse, TryOk, CallTrue, EQ, Varia
                           effects_signature)
 from rules.C15 import POS_OWNER, SENDER_IS_PM, SENDER_IS_RECV, RECV_NONE
 from base import CutPolicy, dep_origins
+from rules.common import rel, rel_sign, om, find_rel
 from absint import EMPTY, vfield, tagvals, const_of
 
 EXPLANATION = ("static analysis (MIR abstract interpretation): owner/delegate guard cut-sets for every position action; the normal "
@@ -20,7 +21,23 @@ LEVEL_TEXT = ("Structural obligations over all paths of the four position action
 LEVEL_NOTE = "Not decided: numeric boundary arithmetic; interleavings (no guard depends on other users' state)."
 
 P = "msg.ManagePosition.action"
-EMERGENCY_FLAG = PredTrue("emergency_unlock==Some(true)", data_test(r"^msg\.ManagePosition\.action\.Withdraw\.emergency_unlock$"))
+EU = r"^msg\.ManagePosition\.action\.Withdraw\.emergency_unlock$"
+
+
+def _emergency_true(pn, pa):
+    """`emergency_unlock` is Some(true), in any spelling: is_some() && unwrap(), unwrap_or(false), == Some(true)"""
+    if pn == "data":
+        o = {x for x in all_origins(pa[0])}
+        return bool(o) and o <= {"msg.ManagePosition.action.Withdraw.emergency_unlock", "Const(false)"} and "Const(false)" != min(o) or \
+            o == {"msg.ManagePosition.action.Withdraw.emergency_unlock"}
+    if pn == "eq" and len(pa) > 1:
+        a, b = all_origins(pa[0]), all_origins(pa[1])
+        e = {"msg.ManagePosition.action.Withdraw.emergency_unlock"}
+        return (a == e and b == {"Const(true)"}) or (b == e and a == {"Const(true)"})
+    return False
+
+
+EMERGENCY_FLAG = PredTrue("emergency_unlock==Some(true)", _emergency_true)
 EMERGENCY_SOME = PredTrue("emergency_unlock.is_some()", pred_test("is_some", r"^msg\.ManagePosition\.action\.Withdraw\.emergency_unlock$"))
 IS_EXPIRED_T = CallTrue(r"::is_expired$", "is_expired(now)", True)
 IS_EXPIRED_F = CallTrue(r"::is_expired$", "!is_expired(now)", False)
@@ -100,8 +117,8 @@ def run(W, chk):
     # ---- Position::is_expired shape (trusted-base entry, structural)
     try:
         H = W.run_fn("mantra_dex_std::farm_manager::{impl#1}::is_expired")
-        les = [a for a in H.ret.atoms if isinstance(a[0], tuple) and a[0][0] == "pred"]
-        ok = any(a[0][1] == "le" and exact_origins(a[0][2]) == {"self.expiring_at"} and exact_origins(a[0][3]) == {"current_time"} for a in les)
+        from absint import preds_of
+        ok = any(rel_sign(n, a, om(r"^self\.expiring_at$"), "<=", om(r"^current_time$")) == (1 if p else -1) for (n, a, p) in preds_of(H.ret))
         chk.expect(ok, "SEM-is_expired", "Position::is_expired", "expiring_at <= current_time (the boundary second is unlocked)",
                    "Position::is_expired is %s" % show(H.ret), H.entry)
     except KeyError:
